@@ -66,7 +66,10 @@ function e.guarded(frame) local ok = pcall(error, "boom") return ok and "bad" or
 return e
 """
 FOLLOW = {"benign": "{{#invoke:c07aux|ok|z}}", "raising": "{{#invoke:c07aux|raise}}", "timing_out": "{{#invoke:c07aux|slow}}",
-          "guarded": "{{#invoke:c07aux|guarded}}"}
+          "guarded": "{{#invoke:c07aux|guarded}}",
+          # invocations that fail on the Python side of the bridge (module name too long for the file system; a lone surrogate
+          # that cannot be encoded for Lua): in-band failure, and the time limit keeps working afterwards
+          "python_oserror": "{{#invoke:" + "x" * 5000 + "|ok}}", "python_unicode": "{{#invoke:c07aux\ud800|ok}}"}
 
 
 def module_text(body, wrapper, position):
@@ -145,7 +148,11 @@ def work(payload, skip, report):
             r2 = "EXC " + type(e).__name__
         dt2 = time.time() - t0
         acc.case()
-        if k == "timing_out":
+        if k.startswith("python_"):
+            if r2.startswith("EXC") or dt2 > LIMIT + SLACK:
+                acc.violation("context_usable_afterwards", case, {"follow_up": k, "result": r2[:120], "seconds": round(dt2, 1)},
+                              "an in-band error element")
+        elif k == "timing_out":
             if dt2 > LIMIT + SLACK or TIMEOUT_ELEMENT not in r2:
                 acc.violation("context_usable_afterwards", case, {"follow_up": k, "result": r2[:120], "seconds": round(dt2, 1)},
                               "timeout element within bound")
@@ -168,6 +175,9 @@ def main(run):
                   "nested_in_template_arg"):
             chunks.append((b, "none", "function", ("guarded", "timing_out", "benign")))
             chunks.append((b, "pcall", "function", ("timing_out", "guarded")))
+        chunks.append(("while", "none", "function", ("python_oserror", "timing_out", "benign")))
+        chunks.append(("while", "pcall", "function", ("python_unicode", "timing_out", "guarded")))
+        chunks.append(("nested_inner_loop", "none", "function", ("python_oserror", "timing_out")))
     else:
         hist = [()] + [(a,) for a in FOLLOW] + list(itertools.product(FOLLOW, repeat=2))
         k = 0
